@@ -78,7 +78,7 @@ func CollectRaceReports(dir string) []RaceReport {
 			if len(stacks) < 2 {
 				continue
 			}
-			a, bb := stacks[0], stacks[1]
+			a, bb := trimStack(stacks[0]), trimStack(stacks[1])
 			ka, kb := strings.Join(top(a, 8), "<"), strings.Join(top(bb, 8), "<")
 			if ka > kb {
 				ka, kb = kb, ka
@@ -105,4 +105,20 @@ func top(s []string, n int) []string {
 		return s[:n]
 	}
 	return s
+}
+
+// trimStack cuts a stack at the harness' worker loop (the detector's restored stacks of the
+// main goroutine repeat stale frames below it) and collapses immediate repetitions.
+func trimStack(st []string) []string {
+	var out []string
+	for _, f := range st {
+		if strings.Contains(f, "core.WorkerMain") || f == "main.main" {
+			break
+		}
+		if len(out) > 0 && out[len(out)-1] == f {
+			continue
+		}
+		out = append(out, f)
+	}
+	return out
 }
